@@ -137,12 +137,12 @@ CHECKS["C17"] = {
     "pkg": "./c17", "run": "^TestC17$", "level": "exploration",
     "technique": "runtime monitor on an in-process cluster of real servers: Dataset.SizeInfo on every node vs the sum of harness-known partition sizes, with injected PartitionInfo failures and hangs (gRPC interceptors)",
     "level_text": "Monitor on real anndb.Server clusters in one process (real raft, real gRPC between nodes): seeded topologies of 1..4 nodes, 1..8 partitions with pairwise distinct sizes, replication 1..3; SizeInfo is called repeatedly on every node (all-local, one-remote, several-remote placements) and must equal the sums of the per-partition sizes; then every needed remote lookup is made to fail or hang and the call must fail.",
-    "level_note": "Topologies and completion orders are sampled (goroutine scheduling is not controlled beyond repetition); truth per partition is what a hosting node's PartitionInfo reports while quiescent.",
+    "level_note": "Topologies and completion orders are sampled (goroutine scheduling is not controlled beyond repetition); truth per partition is what a hosting node's PartitionInfo reports while quiescent; nodes that do not hold a partition are asked too and must fail or answer that true size (the serving half of a remote lookup; a caller with a lagging placement view would add the answer to its sum).",
     "shards": {"quick": 5, "thorough": 12},
     "timeout": {"quick": 900, "thorough": 3400},
     "rule": "case c = topology (nodes, partitions, replication) with distinct partition sizes; 5 SizeInfo calls per node plus 2 fault modes per node with remote partitions; non-trivial = >=2 partitions; distinct = digest of (topology, sizes, placement)",
     "assumptions": ["in-process servers with accelerated raft ticks behave like separate processes for the data plane"],
-    "min": {"any": {"sizeinfo_calls_checked": 50}},
+    "min": {"any": {"sizeinfo_calls_checked": 50, "lookups_served_by_non_hosting_nodes_checked": 5}},
 }
 
 CHECKS["C09"] = {
@@ -202,33 +202,33 @@ CHECKS["C03"] = {
 CHECKS["C20"] = {
     "pkg": "./c20", "run": "^TestC20$", "level": "fault_enumeration",
     "mem_gb": {"quick": 0, "thorough": 0},
-    "technique": "runtime monitor on an in-process cluster of real servers (real gRPC raft transport): address-book equality on every live member after a logical marker, after joins (sequential and concurrent), removals, forced compaction of the membership log and restart of any member",
+    "technique": "runtime monitor on an in-process cluster of real servers (real gRPC raft transport): address-book equality on every live member after a logical marker, after joins (sequential and concurrent), removals, forced compaction of the membership log and restart of any member; a removed node re-joining (through a lagging member; under its old id followed by a later join and a member's restart); a removal while another member is down, with and without compaction",
     "level_text": "Monitor on real clusters of 2..5 nodes: after every acknowledged join / removal a marker catalogue entry is proposed and, once every live member has applied it, each member's Conn.Nodes() must equal the acknowledged membership with the announced addresses; the same after restarting a member (bootstrap node or joiner), with and without the zero group's log having been compacted into a snapshot first.",
     "level_note": "Fault sequences are a fixed seeded family (sequential vs concurrent joins x removal x compaction x which member restarts), not message-level faults; quiescence is logical (marker applied), the wall-clock watchdog only yields inconclusive.",
     "shards": {"quick": 8, "thorough": 16},
     "timeout": {"quick": 900, "thorough": 3400},
-    "rule": "case c = (nodes 2..5, concurrent joins?, removal?, compaction before restart?, restarted member); non-trivial = all phases ran to the final comparison; distinct = digest of the case description",
+    "rule": "case c = (nodes 2..5, concurrent joins?, removal?, compaction before restart?, restarted member); non-trivial = all phases ran to the final comparison; distinct = digest of the case description. Three more families of 3 (quick) / 24 (thorough) cases each: re-join through a member that holds the removal unapplied; removal + shutdown + re-join under the old id, then node 4 joins and a member that stayed restarts (datasets with 3 replicas exist, so partition groups log the removal too); removal of a node while another member is down, [compaction], the member returns. In the last two a view that does not converge is a violation only if the lagging member's membership log has not moved during a second 20 s window",
     "assumptions": ["a marker entry applied on a member implies every earlier membership entry was applied there (single log order)"],
-    "min": {"any": {"books_checked": 20}},
+    "min": {"any": {"books_checked": 20, "rejoin_then_later_join_histories": 1, "removal_while_member_down_histories": 1}},
 }
 
 CHECKS["C14"] = {
     "pkg": "./c14", "run": "^TestC14$", "level": "fault_enumeration",
     "mem_gb": {"quick": 0, "thorough": 0},
-    "technique": "runtime monitor on an in-process cluster of real servers: catalogue equality (id, dimension, metric, partition ids in order, replica assignment) of every live node vs the acknowledged model after a logical marker, across create/delete sequences, forced catalogue-log compaction, restarts, and a node catching up by snapshot",
+    "technique": "runtime monitor on an in-process cluster of real servers: catalogue equality (id, dimension, metric, partition ids in order, replica assignment) of every live node vs the acknowledged model after a logical marker, across create/delete sequences, forced catalogue-log compaction, restarts, and a node catching up by snapshot; plus a replica-set family: agreement of the replica assignment across members, and of what each member lists with what it routes by, after node 3 is added to under-replicated partitions and removed again, across compaction, restart and catch-up by snapshot",
     "level_text": "Monitor on real clusters of 1..3 nodes with real start-up wiring: seeded sequences of create / delete / compaction / restart / node-down-while-the-catalogue-changes-and-the-others-compact; after each restart or catch-up and at the end (and again after restarting every node) each live node's List must equal the acknowledged catalogue exactly, deleted datasets must not be listed and no raft group of their partitions may still run on any node.",
-    "level_note": "Sequences are sampled from a fixed seeded family; crash = in-process teardown at step boundaries (mid-write crash points are C03's); replica-set changes by the allocator occur only as a side effect of membership changes.",
+    "level_note": "Sequences are sampled from a fixed seeded family; crash = in-process teardown at step boundaries (mid-write crash points are C03's); replica-set changes are the allocator's own (node 3 joins while datasets want 3 replicas on 2 members, node 3 is removed); which partitions change depends on the allocator (only a partition's first replica may change it), so where a particular outcome cannot be expected the verdict is agreement (across members at rest; listed vs in effect on one member), and an allocator change that never arrives is inconclusive.",
     "shards": {"quick": 8, "thorough": 16},
     "timeout": {"quick": 900, "thorough": 3400},
-    "rule": "case c = 1..3 nodes + 6..11 steps of create/delete/compaction/restart/lagging-node; non-trivial = at least one deletion acknowledged; distinct = digest of the step list",
+    "rule": "case c = 1..3 nodes + 6..11 steps of create/delete/compaction/restart/lagging-node; non-trivial = at least one deletion acknowledged; distinct = digest of the step list. Replica-set family (4 quick / 40 thorough cases): 2..4 datasets (replication 3 or 1..2) on 2 members, node 3 joins, [compaction] restart of a member, [node 2 down] node 3 removed, [compaction, node 2 back], restart of every member",
     "assumptions": ["a marker dataset visible on a node implies every earlier catalogue entry was applied there"],
-    "min": {"any": {"catalogues_compared": 20}},
+    "min": {"any": {"catalogues_compared": 20, "replica_assignments_compared": 6, "replica_set_changes_observed": 2}},
 }
 
 CHECKS["C05"] = {
     "pkg": "./c05", "run": "^TestC05$", "level": "fault_enumeration",
     "mem_gb": {"quick": 0, "thorough": 0},
-    "technique": "online trace monitors (apply agreement, in-order apply, durable-before-send, restart monotonicity, one leader per term, no fatal, bounded convergence) over every raft message (SimNet shim), every durable write (WAL wrapper) and every applied entry of in-process real servers under seeded loss/delay/duplication/partition/crash-restart schedules",
+    "technique": "online trace monitors (apply agreement, in-order apply, durable-before-send, restart monotonicity and exact equality of the log a replica resumes from with the log its previous incarnation made durable, one leader per term, no fatal, bounded convergence) over every raft message (SimNet shim), every durable write (WAL wrapper) and every applied entry of in-process real servers under seeded loss/delay/duplication/partition/crash-restart schedules",
     "level_text": "Real servers in one process with all raft traffic routed through a recording network shim and all log stores wrapped: seeded schedules of 6-10 phases (drop 0-30%, duplication, delays up to 80 ms against 50-100 ms election timeouts, minority and one-way partitions, immediate crashes and crashes armed at the k-th durable write, restarts) run against groups of 1, 3 and 5 replicas plus the zero group while 5 sequential clients write. Seven monitors judge every message against the sender's durable view at the instant it leaves, every applied entry, every Save and every restart; after faults stop all replicas must converge within 600 election timeouts of virtual ticks and hold exactly the acknowledged history.",
     "level_note": "etcd/raft itself is trusted; schedules are sampled (only the crash boundary index is a systematic dimension); goroutine scheduling is not replayable, the witness is the recorded event tail.",
     "shards": {"quick": 8, "thorough": 16},
